@@ -578,6 +578,15 @@ func (st *State) fieldOf(s Struct, i int) Value {
 	if s.N == nil {
 		name = "anon." + s.T.Field(i).Name()
 	}
+	// the struct behind a concrete handle (an object this activation allocated, reached here as one
+	// branch of an ite pointer): its fields are in its heap cell, not behind the field accessor
+	if h := st.norm(s.H); h.IsInt() && len(s.F) == 0 {
+		if c, ok := st.heap[h.String()]; ok {
+			if cs, isStruct := c.V.(Struct); isStruct && cs.T == s.T && (len(cs.F) > 0 || cs.H == nil || cs.H.String() != h.String()) {
+				return st.fieldOf(cs, i)
+			}
+		}
+	}
 	// a struct that is one of two structs (slice element at a symbolic index after an append): the
 	// field is the corresponding choice, so that what is known about either one is found
 	if h := st.norm(s.H); h.Op == "ite" && len(h.Args) == 3 {
